@@ -939,24 +939,19 @@ func minimiseAndVerify(b *build, prop string, vm violationMsg, seed uint64, race
 	src := raw
 	if _, err := os.Stat(minOut); err == nil {
 		src = minOut
-	} else if vm.V.Class != "race" && vm.Run > 0 && vm.Run <= 4000 {
+	} else if vm.V.Class != "race" && vm.Run > 0 && vm.Run <= 200000 {
 		// Not reproducible on its own: the library may carry state over from
-		// earlier runs of that worker process. Replay the whole prefix and let
-		// the minimiser find the runs that matter.
-		full := filepath.Join(b.Dir, "full-"+name)
-		dargs := []string{"dump", "-prop", prop, "-seed", fmt.Sprint(vm.BaseSeed), "-worker", fmt.Sprint(vm.Worker), "-upto", fmt.Sprint(vm.Run), "-class", vm.V.Class, "-out", full}
+		// earlier runs of that worker process. Regenerate the worker's earlier
+		// plans and let the minimiser find the runs that matter.
+		cold := 0
 		if vm.Cold {
-			dargs = append(dargs, "-cold")
+			cold = 1
 		}
-		d := exec.Command(bin, dargs...)
-		d.Env = goEnv()
-		if err := d.Run(); err == nil {
-			c2 := exec.Command(bin, "min", "-in", full, "-out", minOut, "-secs", "60")
-			c2.Env = append(goEnv(), "GORACE=halt_on_error=0 atexit_sleep_ms=0 log_path=/dev/null")
-			out, _ = c2.CombinedOutput()
-			if _, err := os.Stat(minOut); err == nil {
-				src = minOut
-			}
+		c2 := exec.Command(bin, "min", "-regen", fmt.Sprintf("%s,%s,%d,%d,%d,%d", prop, vm.V.Class, vm.BaseSeed, vm.Worker, vm.Run, cold), "-out", minOut, "-secs", "75")
+		c2.Env = append(goEnv(), "GORACE=halt_on_error=0 atexit_sleep_ms=0 log_path=/dev/null")
+		out, _ = c2.CombinedOutput()
+		if _, err := os.Stat(minOut); err == nil {
+			src = minOut
 		}
 	}
 	// assemble the replay file: plan(s) + what was observed + provenance
